@@ -111,6 +111,12 @@ pub trait Table: Send + Sync {
     fn max_image(&self) -> Option<usize> {
         None
     }
+    /// explicit programs beyond the alphabets: every size of each variable-size entry over a contiguous range,
+    /// continuation chains (arguments derived from the previous operation), special string values.
+    /// Every prefix of every program is judged.
+    fn sweeps(&self, _level: u8) -> Vec<(String, Vec<Op>)> {
+        vec![]
+    }
     /// names of the open known findings that change this table's image ("switches" of DESIGN.md 6)
     fn quirks(&self) -> &'static [&'static str] {
         &[]
